@@ -23,7 +23,7 @@ func init() {
 		"C11-lockrelease (every Lock/RLock in gldap is released on every path to the function's exit), C11-accounting (every connWg.Add is matched by a Done on every path, rules C12-done-last / C12-add-vs-wait), C11-waker-lifetime (a watcher goroutine that can be told to stop is told so only after (*conn).close has waited for the handlers), C11-waker (some code that runs asynchronously to those goroutines closes or deadlines every connection's socket once shutdownCtx is cancelled, and it is started for every accepted connection before its first read), C11-waker-first (no call that reaches ber.ReadPacket, a bufio.Writer write/flush, a net.Conn/tls.Conn read/write or a TLS handshake lies on a path of the connection goroutine before the watcher start), C11-deadline-kept (every holder of a connection socket is followed; a Set*Deadline that may clear the deadline runs only on the shutdown path, in connection setup, synchronously in the read loop or as the closing half of an arm/clear pair), C11-noblock (the connection goroutine contains no bare channel operation, select without a shutdown case or foreign Wait), " +
 		"C11-stop-order (listener.Close and cancel precede connWg.Wait), C11-run-nil (shutdown exits of Run return nil), C11-nolock (connection goroutines never take Server.mu, which Stop holds across Wait). The time bound itself is not decided."
 	Descriptions["C17"] = "C17-guard (every store of true to Server.listenerReady is control-dependent on net.Listen's error being nil), C17-who (the flag is written only in Run (true) / Stop (false), under Server.mu), " +
-		"C17-errors (no error return of Run before or at the listen failure follows a store of true), C17-serves (no error return of Run between making Ready true and the first Accept), C17-accept-retry (a temporary Accept error never ends Run), C17-accept-unblocked (connection goroutines never take Server.mu, which the accept loop needs for every Accept: rule C11-nolock), C17-timeouts (a deadline armed at connection setup from a configured timeout is guarded by that timeout being non-zero), C17-accept-nonblocking (the accept loop, helpers included, performs no handshake / read / write on an accepted connection: rule C07-accept-nonblocking), C17-getter (Ready returns the field under the lock). Kernel-level accept behaviour is not decided."
+		"C17-errors (no error return of Run before or at the listen failure follows a store of true), C17-serves (no error return of Run between making Ready true and the first Accept), C17-accept-retry (a temporary Accept error never ends Run), C17-accept-unblocked (connection goroutines never take Server.mu, which the accept loop needs for every Accept: rule C11-nolock), C17-addr-narrowing (no number parsed from the address is narrowed to a smaller integer type without a range check), C17-timeouts (a deadline armed at connection setup from a configured timeout is guarded by that timeout being non-zero), C17-accept-nonblocking (the accept loop, helpers included, performs no handshake / read / write on an accepted connection: rule C07-accept-nonblocking), C17-getter (Ready returns the field under the lock). Kernel-level accept behaviour is not decided."
 	Descriptions["C18"] = "C18-wrap (when opts.withTLSConfig != nil the listener Accept is called on is tls.NewListener(plain, thatConfig), installed before the accept loop and never replaced), " +
 		"C18-noplain (newConn receives the Accept result itself; every stream handed to initConn traces back to Accept's result, conn.netConn or tls.Server of those; no code reads the underlying socket; read errors end the connection), " +
 		"C18-directory (testdirectory.GetTLSConfig with WithMTLS sets ClientAuth = RequireAndVerifyClientCert and ClientCAs = the pool of the CA created in the same call, and never weakens verification; Start passes that config to Run unless WithNoTLS). crypto/tls itself is trusted."
@@ -271,6 +271,80 @@ func checkC17(c *Ctx) {
 			}
 		}
 		R.Floor("C17-accept-nonblocking", 1)
+	}
+	// C17-addr-narrowing: "if Run cannot listen (port in use, malformed address) it returns an error": a number parsed
+	// from the address (the port) is never narrowed to a smaller integer type without a range check - a silent
+	// truncation maps an out-of-range port to some other port, Run listens there and Ready() becomes true
+	{
+		pre := syncReach(m.run)
+		nN := 0
+		size := func(t types.Type) int64 {
+			if b, ok := t.Underlying().(*types.Basic); ok {
+				switch b.Kind() {
+				case types.Int8, types.Uint8:
+					return 8
+				case types.Int16, types.Uint16:
+					return 16
+				case types.Int32, types.Uint32:
+					return 32
+				case types.Int, types.Int64, types.Uint, types.Uint64, types.Uintptr:
+					return 64
+				}
+			}
+			return 0
+		}
+		for f := range pre {
+			if !an.InModule(f) || c.P.IsTestFile(f.Pos()) || f == m.serve || syncReach(m.connFn)[f] {
+				continue
+			}
+			an.Instrs(f, func(in ssa.Instruction) {
+				cv, ok := in.(*ssa.Convert)
+				if !ok || size(cv.Type()) == 0 || size(cv.X.Type()) <= size(cv.Type()) {
+					return
+				}
+				ex, ok := an.Strip(cv.X).(*ssa.Extract)
+				if !ok {
+					return
+				}
+				pc, ok := ex.Tuple.(*ssa.Call)
+				if !ok {
+					return
+				}
+				g := pc.Common().StaticCallee()
+				if g == nil || an.FuncPkgPath(g) != "strconv" || !(g.Name() == "Atoi" || g.Name() == "ParseInt" || g.Name() == "ParseUint") {
+					return
+				}
+				nN++
+				// ParseInt / ParseUint with a bit size that fits the target reject the out-of-range value themselves
+				fits := false
+				if g.Name() != "Atoi" && len(pc.Common().Args) == 3 {
+					if bs, isK := an.IntConst(pc.Common().Args[2]); isK && bs > 0 && bs <= size(cv.Type()) {
+						fits = true
+					}
+				}
+				// or both bounds are tested on the way
+				lo, hi := false, false
+				for _, fct := range an.BranchFacts(cv.Block()) {
+					cond, _ := an.Not(fct.Cond)
+					if bo, isB := cond.(*ssa.BinOp); isB && (an.Strip(bo.X) == ssa.Value(ex) || an.Strip(bo.Y) == ssa.Value(ex)) {
+						switch bo.Op {
+						case token.LSS, token.LEQ, token.GTR, token.GEQ:
+							k, isKx := an.IntConst(bo.X)
+							if !isKx {
+								k, _ = an.IntConst(bo.Y)
+							}
+							if k <= 0 {
+								lo = true
+							} else {
+								hi = true
+							}
+						}
+					}
+				}
+				R.Check(fits || lo && hi, "C17-addr-narrowing", fname(f)+": parsed number narrowed to "+cv.Type().String(), c.pos(cv), "the parse itself or a range test on the way bounds the value", "the result of strconv."+g.Name()+" is converted to "+cv.Type().String()+" without a range check: an out-of-range port in the address is silently truncated to another port, Run listens there instead of returning an error, and Ready() becomes true for an address nobody asked for")
+			})
+		}
+		R.Count("C17-addr-narrowing/conversions", nN)
 	}
 	// C17-timeouts: "a connection attempt ... is served": a deadline armed at connection setup from a configured timeout
 	// (now + d) is armed only when that timeout is configured (d != 0): with d == 0 the deadline is "now" and every read
@@ -575,6 +649,7 @@ func checkC18(c *Ctx) {
 			}
 		}
 		var wrapStore *ssa.Store
+		var wrapHelperCall *ssa.Call      // the call, in Run, of a helper that decides itself whether to wrap and returns the listener
 		var wrapCallBlock *ssa.BasicBlock // where tls.NewListener is called, when that is not the store's block (phi form)
 		for _, fs := range listenerStores(wrapFns) {
 			call, ok := an.Strip(fs.Store.Val).(*ssa.Call)
@@ -592,6 +667,7 @@ func checkC18(c *Ctx) {
 					if hf := an.StaticCallee(hc.Common()); hf != nil && an.InModule(hf) && len(hf.Blocks) > 0 && partOfRun(hf) {
 						var inner *ssa.Call
 						same := true
+						condInHelper := false
 						for _, ret := range an.Returns(hf) {
 							res := an.ReturnResults(ret)
 							if idx >= len(res) {
@@ -600,6 +676,20 @@ func checkC18(c *Ctx) {
 							}
 							ic, isC := an.Strip(res[idx]).(*ssa.Call)
 							if !isC || !an.CalleeIs(ic.Common(), "crypto/tls", "NewListener") || (inner != nil && inner != ic) {
+								// the helper decides itself whether to wrap: its other returns hand back the plain listener
+								// (its parameter, or the result of the Listen it made) or nothing at all on an error
+								rv := an.Strip(res[idx])
+								_, isParam := rv.(*ssa.Parameter)
+								isListen := false
+								if ex, isEx := rv.(*ssa.Extract); isEx {
+									if lc, isLC := ex.Tuple.(*ssa.Call); isLC && an.CalleeIs(lc.Common(), "net", "Listen") {
+										isListen = true
+									}
+								}
+								if isParam || isListen || an.IsNilConst(rv) {
+									condInHelper = true
+									continue
+								}
 								same = false
 								continue
 							}
@@ -607,6 +697,10 @@ func checkC18(c *Ctx) {
 						}
 						if same && inner != nil {
 							call, ok = inner, true
+							if condInHelper {
+								wrapCallBlock = inner.Block()
+								wrapHelperCall = hc
+							}
 						}
 					}
 				}
@@ -713,13 +807,21 @@ func checkC18(c *Ctx) {
 			}
 			for i := range tests {
 				t := &tests[i]
-				if t.fn == h && t.withTLS.Dominates(guarded) {
+				if t.fn == guarded.Parent() && t.withTLS.Dominates(guarded) {
 					gd = t
+				}
+			}
+			crossFn := guarded.Parent() != h
+			if gd != nil && crossFn {
+				// the helper decides: with a config every path of the helper to a return passes the tls.NewListener call
+				inCallBlock := func(in ssa.Instruction) bool { return in.Block() == wrapCallBlock }
+				if w := an.Search(an.Point{B: gd.withTLS, I: 0}, an.IsReturn, inCallBlock); w != nil {
+					R.Fail("C18-wrap", key, c.pos(wrapStore), "with a TLS config a path of "+fname(guarded.Parent())+" returns the listener without wrapping it: "+c.trail(w))
 				}
 			}
 			// phi form: with a config, the value that reaches the store is the TLS listener (every path from the
 			// "configured" side to the store passes the tls.NewListener call)
-			if gd != nil && wrapCallBlock != nil {
+			if gd != nil && wrapCallBlock != nil && !crossFn {
 				inCallBlock := func(in ssa.Instruction) bool { return in.Block() == wrapCallBlock }
 				if w := an.Search(an.Point{B: gd.withTLS, I: 0}, isInstr(wrapStore), inCallBlock); w != nil {
 					R.Fail("C18-wrap", key, c.pos(wrapStore), "with a TLS config a path stores the listener without wrapping it: "+c.trail(w))
@@ -740,7 +842,45 @@ func checkC18(c *Ctx) {
 				R.Fail("C18-wrap", key, c.pos(wrapStore), "the TLS wrap is not guarded by a test of the configured tls.Config")
 			default:
 				bad := ""
-				if gd.fn == run {
+				if crossFn && wrapHelperCall != nil {
+					// the helper tests the config and returns the listener to use; Run calls it on every path to Accept and
+					// installs what it returned - unconditionally, or unless the helper's own bool result says "not wrapped"
+					hf := guarded.Parent()
+					if w := an.SearchCorr(an.Entry(run), isInstr(m.accept), isInstr(wrapHelperCall), nil); w != nil {
+						bad = "a path reaches Accept without calling " + fname(hf) + ": " + c.trail(w)
+					} else if w := an.SearchCorr(an.After(wrapHelperCall), isInstr(m.accept), isInstr(wrapStore), nil); w != nil {
+						// allowed when skipped only under "the helper reported false", and the helper reports true exactly
+						// where it returns the TLS listener
+						okSkip := false
+						if refs := wrapHelperCall.Referrers(); refs != nil {
+							for _, ref := range *refs {
+								ex, isEx := ref.(*ssa.Extract)
+								if !isEx {
+									continue
+								}
+								if bt, isB := ex.Type().Underlying().(*types.Basic); !isB || bt.Kind() != types.Bool {
+									continue
+								}
+								pairs := true
+								for _, ret := range an.Returns(hf) {
+									res := an.ReturnResults(ret)
+									b, isC := an.BoolConst(res[ex.Index])
+									_, isWrap := an.Strip(res[0]).(*ssa.Call)
+									if !isC || b != isWrap {
+										pairs = false
+									}
+								}
+								k, kneg := an.CondKey(ex)
+								if pairs && an.SearchKnown(an.After(wrapHelperCall), isInstr(m.accept), isInstr(wrapStore), map[string]bool{k: !kneg}) == nil {
+									okSkip = true
+								}
+							}
+						}
+						if !okSkip {
+							bad = "Run can reach Accept without installing the listener " + fname(hf) + " returned: " + c.trail(w)
+						}
+					}
+				} else if gd.fn == run {
 					// guard in Run: with a config every path to Accept installs the listener; every path to Accept is tested
 					if w := an.SearchCorr(an.Point{B: gd.withTLS, I: 0}, isInstr(m.accept), isInstr(wrapAt), nil); w != nil {
 						bad = "with a TLS config a path reaches Accept without installing the TLS listener: " + c.trail(w)
@@ -2043,28 +2183,6 @@ func checkC11(c *Ctx) {
 				R.Fail("C11-deadline-kept", o.Construct, o.Pos, "a holder or user of the connection's socket that the analysis cannot follow: it could clear or re-arm the deadlines with which the shutdown watcher interrupts blocked handlers ("+o.Detail+")")
 			}
 		}
-		nonZeroTime := func(v ssa.Value) bool {
-			// time.Now().Add(d) / time.Now(): never the zero time
-			call, ok := an.Strip(v).(*ssa.Call)
-			if !ok {
-				return false
-			}
-			g := call.Common().StaticCallee()
-			if g == nil || an.FuncPkgPath(g) != "time" {
-				return false
-			}
-			if g.Name() == "Now" {
-				return true
-			}
-			if g.Name() == "Add" && len(call.Common().Args) == 2 {
-				if in, ok := an.Strip(call.Common().Args[0]).(*ssa.Call); ok {
-					if h := in.Common().StaticCallee(); h != nil && an.FuncPkgPath(h) == "time" && h.Name() == "Now" {
-						return true
-					}
-				}
-			}
-			return false
-		}
 		n := 0
 		for _, u := range c.socketUses() {
 			if !strings.HasPrefix(u.Kind, "method:Set") || !strings.HasSuffix(u.Kind, "Deadline") {
@@ -2185,6 +2303,11 @@ func checkC11(c *Ctx) {
 		}
 		ci, ok := u.Instr.(ssa.CallInstruction)
 		if !ok {
+			continue
+		}
+		// a deadline interrupts blocked I/O only if it is a real instant: the zero time.Time CLEARS the deadline
+		if meth != "Close" && (len(ci.Common().Args) == 0 || !nonZeroTime(ci.Common().Args[len(ci.Common().Args)-1])) {
+			R.Note("%s at %s is not counted as interrupting blocked I/O: its time argument is not shown to be a non-zero instant", meth, c.pos(ci))
 			continue
 		}
 		f := u.Fn
@@ -2720,11 +2843,45 @@ func (c *Ctx) isShutdownDone(ch ssa.Value) bool {
 	return c.isShutdownCtx(call.Common().Value)
 }
 
+// nonZeroTime: time.Now() or time.Now().Add(d) - never the zero time.Time,
+// which as a deadline means "no deadline".
+func nonZeroTime(v ssa.Value) bool {
+	call, ok := an.Strip(v).(*ssa.Call)
+	if !ok {
+		return false
+	}
+	g := call.Common().StaticCallee()
+	if g == nil || an.FuncPkgPath(g) != "time" {
+		return false
+	}
+	if g.Name() == "Now" {
+		return true
+	}
+	if g.Name() == "Add" && len(call.Common().Args) == 2 {
+		if in, ok := an.Strip(call.Common().Args[0]).(*ssa.Call); ok {
+			if h := in.Common().StaticCallee(); h != nil && an.FuncPkgPath(h) == "time" && h.Name() == "Now" {
+				return true
+			}
+		}
+	}
+	return false
+}
+
 // dominatedByShutdownRecv: the instruction only executes after a receive from
 // shutdownCtx.Done() (plain receive, or the matching case of a blocking select).
 func (c *Ctx) dominatedByShutdownRecv(in ssa.Instruction) bool {
 	fn := in.Parent()
 	ok := false
+	// the callback of context.AfterFunc(shutdownCtx, f) runs only once the server is stopping
+	for _, g := range c.shippedFuncs(G) {
+		for _, gi := range an.Calls(g) {
+			if an.CalleeIs(gi.Common(), "context", "AfterFunc") && len(gi.Common().Args) == 2 && c.isShutdownCtx(gi.Common().Args[0]) {
+				if t := an.StaticCallee(&ssa.CallCommon{Value: gi.Common().Args[1]}); t != nil && (t == fn || fn.Parent() == t) {
+					return true
+				}
+			}
+		}
+	}
 	an.Instrs(fn, func(x ssa.Instruction) {
 		if u, isU := x.(*ssa.UnOp); isU && u.Op == token.ARROW && an.InstrDominates(u, in) {
 			if c.isShutdownDone(u.X) {
